@@ -167,8 +167,9 @@ theorem C04_text_content_delivered_behind_cdata (inner t : List Gomjml.Amp.B)
   Gomjml.Lines.wrapInner_delivered_cdata inner t h ht
 
 /-- **mj-text, from the source to the inner HTML**: for content that does not begin with a CDATA section and has no no-break
-    space, what the component writes keeps every byte of the author's content that is not white space, in order — the pre-pass
-    (void tags respelled, `]]>` escaped), the XML layer's decoding and the white-space collapsing composed -/
+    space, the inner HTML the component builds (`TextFlow.textInner`, the step in front of the void-tag respelling, which keeps
+    the text by `C04_void_normaliser_keeps_text`) keeps every byte of the author's content that is not white space, in order —
+    the pre-pass (void tags respelled, `]]>` escaped), the XML layer's decoding and the white-space collapsing composed -/
 theorem C04_text_end_to_end (inner : List Gomjml.Amp.B)
     (h : Gomjml.Passes.cdStart.isPrefixOf (inner.dropWhile Gomjml.Passes.isWs) = false) (hc : ∀ b ∈ inner, b ≠ 0xC2) :
     ∃ x, Gomjml.Passes.cdataDecode (Gomjml.Lines.wrapInner inner) = some x ∧
